@@ -1,1 +1,266 @@
-From E2V Require Import Bitmap.RBModel Bitmap.BAModel.
+(* Proofs about the bit-array bitmap model: every operation agrees with the
+   reference set whose membership function is N.testbit, for every alignment
+   of the array. *)
+From E2V Require Import Bitmap.BAModel Bitmap.FSetLemmas Bitmap.BackendOk.
+From Coq Require Import ZArith ZifyN ZifyNat ZifyBool.
+Local Open Scope N_scope.
+Ltac Zify.zify_post_hook ::= Z.div_mod_to_equations.
+
+Lemma bits_from_forallb (P : N -> bool) : forall k i,
+  forallb P (bits_from i k) = true <-> (forall x, i <= x < i + N.of_nat k -> P x = true).
+Proof.
+  induction k; intros i; simpl.
+  - split; auto. intros _ x H. lia.
+  - rewrite andb_true_iff, IHk. split.
+    + intros [H1 H2] x Hx. destruct (N.eq_dec x i); [subst; auto|]. apply H2. lia.
+    + intros H. split; [apply H; lia|]. intros x Hx. apply H. lia.
+Qed.
+
+Lemma tb_set b i j : tb (N.setbit b i) j = (j =? i) || tb b j.
+Proof. unfold tb. rewrite N.setbit_eqb, (N.eqb_sym i j). reflexivity. Qed.
+
+Lemma tb_clr b i j : tb (N.clearbit b i) j = negb (j =? i) && tb b j.
+Proof. unfold tb. rewrite N.clearbit_eqb, (N.eqb_sym i j). apply andb_comm. Qed.
+
+Lemma set_loop_spec : forall k b i j, tb (set_loop b i k) j = f_rng i (N.of_nat k) j || tb b j.
+Proof.
+  induction k; intros b i j; simpl.
+  - unfold f_rng. destruct (N.leb_spec i j), (N.ltb_spec j (i + 0)); simpl; try reflexivity; lia.
+  - rewrite IHk, tb_set. unfold f_rng.
+    destruct (N.leb_spec (i + 1) j), (N.ltb_spec j (i + 1 + N.of_nat k)), (N.eqb_spec j i),
+             (N.leb_spec i j), (N.ltb_spec j (i + N.pos (Pos.of_succ_nat k))); simpl; try reflexivity; lia.
+Qed.
+
+Lemma clr_loop_spec : forall k b i j, tb (clr_loop b i k) j = negb (f_rng i (N.of_nat k) j) && tb b j.
+Proof.
+  induction k; intros b i j; simpl.
+  - unfold f_rng. destruct (N.leb_spec i j), (N.ltb_spec j (i + 0)); simpl; try reflexivity; lia.
+  - rewrite IHk, tb_clr. unfold f_rng.
+    destruct (N.leb_spec (i + 1) j), (N.ltb_spec j (i + 1 + N.of_nat k)), (N.eqb_spec j i),
+             (N.leb_spec i j), (N.ltb_spec j (i + N.pos (Pos.of_succ_nat k))); simpl; try reflexivity; lia.
+Qed.
+
+(* ---- find first ---- *)
+Section FindProofs.
+  Variable al : N.
+  Variable b : ba.
+  Variable want : bool.
+  Variables a tot : N.
+
+  Definition Skip (pos : N) := forall x, a <= x < pos -> hit b want x = false.
+  Definition good (pc : N * N) := a <= fst pc /\ fst pc + snd pc = a + tot /\ Skip (fst pc).
+
+  Lemma skip_ext pos k : Skip pos -> (forall x, pos <= x < pos + k -> hit b want x = false) -> Skip (pos + k).
+  Proof. intros S H x Hx. destruct (N.lt_ge_cases x pos); [apply S; lia|apply H; lia]. Qed.
+
+  Lemma ph1_spec : forall fuel pos cnt, good (pos, cnt) ->
+    match ph1 b want fuel pos cnt with
+    | inl p => a <= p < a + tot /\ Skip p /\ hit b want p = true
+    | inr pc => good pc
+    end.
+  Proof.
+    induction fuel; intros pos cnt G; simpl; [exact G|].
+    destruct G as (G1 & G2 & G3); simpl in *.
+    destruct (negb (pos mod 8 =? 0) && (0 <? cnt)) eqn:C; [|split3; auto].
+    apply andb_true_iff in C. destruct C as [_ C]. apply N.ltb_lt in C.
+    destruct (hit b want pos) eqn:H.
+    - split3; auto. lia.
+    - apply IHfuel. split3; simpl; try lia.
+      apply (skip_ext pos 1); auto. intros x Hx. replace x with pos by lia. exact H.
+  Qed.
+
+  Lemma byte_skip_spec pos : byte_skip b want pos = true ->
+    forall x, pos <= x < pos + 8 -> hit b want x = false.
+  Proof.
+    unfold byte_skip. rewrite bits_from_forallb. intros H x Hx.
+    specialize (H x ltac:(simpl; lia)). apply negb_true_iff in H. exact H.
+  Qed.
+
+  Lemma word_skip_spec pos : word_skip b want pos = true ->
+    forall x, pos <= x < pos + 64 -> hit b want x = false.
+  Proof.
+    unfold word_skip. rewrite bits_from_forallb. intros H x Hx.
+    specialize (H x ltac:(simpl; lia)). apply negb_true_iff in H. exact H.
+  Qed.
+
+  Lemma ph2_spec : forall fuel pos cnt, good (pos, cnt) -> good (snd (ph2 al b want fuel pos cnt)).
+  Proof.
+    induction fuel; intros pos cnt G; simpl; [exact G|].
+    destruct ((8 <=? cnt) && negb ((al + pos / 8) mod 8 =? 0)) eqn:C; [|exact G].
+    apply andb_true_iff in C. destruct C as [C _]. apply N.leb_le in C.
+    destruct (byte_skip b want pos) eqn:S; [|exact G].
+    apply IHfuel. destruct G as (G1 & G2 & G3); simpl in *. split3; simpl; try lia.
+    apply skip_ext; auto. apply byte_skip_spec; auto.
+  Qed.
+
+  Lemma ph3w_spec : forall i pos, let '(i', _) := ph3w b want i pos in
+    (i' <= i)%nat /\ forall x, pos <= x < pos + 64 * N.of_nat (i - i') -> hit b want x = false.
+  Proof.
+    induction i; intros pos; cbn [ph3w].
+    - split; auto. intros x Hx. lia.
+    - destruct (word_skip b want pos) eqn:S.
+      + specialize (IHi (pos + 64)). destruct (ph3w b want i (pos + 64)) as [i' p'].
+        destruct IHi as [I1 I2]. split; [lia|]. intros x Hx.
+        destruct (N.lt_ge_cases x (pos + 64)); [apply (word_skip_spec pos); auto; lia|].
+        apply I2. lia.
+      + split; auto. intros x Hx. lia.
+  Qed.
+
+  Lemma ph3b_spec : forall i pos, let '(i', _) := ph3b b want i pos in
+    (i' <= i)%nat /\ forall x, pos <= x < pos + 8 * N.of_nat (i - i') -> hit b want x = false.
+  Proof.
+    induction i; intros pos; cbn [ph3b].
+    - split; auto. intros x Hx. lia.
+    - destruct (byte_skip b want pos) eqn:S.
+      + specialize (IHi (pos + 8)). destruct (ph3b b want i (pos + 8)) as [i' p'].
+        destruct IHi as [I1 I2]. split; [lia|]. intros x Hx.
+        destruct (N.lt_ge_cases x (pos + 8)); [apply (byte_skip_spec pos); auto; lia|].
+        apply I2. lia.
+      + split; auto. intros x Hx. lia.
+  Qed.
+
+  Lemma ph4_scan : forall cnt pos, ph4 b want cnt pos = f_scan (tb b) want pos cnt.
+  Proof. induction cnt; intros pos; simpl; [reflexivity|]. unfold hit. rewrite IHcnt. reflexivity. Qed.
+
+  Lemma good_scan pos cnt : good (pos, cnt) ->
+    f_scan (tb b) want a (N.to_nat tot) = f_scan (tb b) want pos (N.to_nat cnt).
+  Proof.
+    intros (G1 & G2 & G3); simpl in *.
+    replace (N.to_nat tot) with (N.to_nat (pos - a) + N.to_nat cnt)%nat by lia.
+    rewrite f_scan_skip; [f_equal; lia|].
+    intros x Hx. specialize (G3 x ltac:(lia)). unfold hit in G3.
+    intro E. rewrite E, eqb_reflx in G3. discriminate.
+  Qed.
+End FindProofs.
+
+Lemma ba_find_ok al b want a e : a <= e ->
+  ba_find al b want a e = f_scan (tb b) want a (N.to_nat (e + 1 - a)).
+Proof.
+  intros Hae. unfold ba_find. set (tot := e + 1 - a).
+  assert (G0 : good b want a tot (a, tot)).
+  { split3; simpl; try lia. intros x Hx. lia. }
+  pose proof (ph1_spec b want a tot 8 a tot G0) as P1.
+  destruct (ph1 b want 8 a tot) as [p|[pos cnt]].
+  - destruct P1 as (A & B & C). symmetry. apply f_scan_first; try lia.
+    + intros x Hx. specialize (B x Hx). unfold hit in B. intro E. rewrite E, eqb_reflx in B. discriminate.
+    + unfold hit in C. apply eqb_prop. exact C.
+  - destruct (N.eqb_spec cnt 0) as [->|Hc].
+    + fold tot. rewrite (good_scan b want a tot pos 0 P1). reflexivity.
+    + pose proof (ph2_spec al b want a tot 8 pos cnt P1) as P2.
+      destruct (ph2 al b want 8 pos cnt) as [found [pos2 cnt2]]. simpl in P2.
+      destruct found.
+      * rewrite ph4_scan. symmetry. apply (good_scan b want a tot pos2 cnt2 P2).
+      * pose proof (ph3w_spec b want (N.to_nat (cnt2 / 64)) pos2) as W.
+        destruct (ph3w b want (N.to_nat (cnt2 / 64)) pos2) as [iw pw]. destruct W as [W1 W2].
+        set (advw := N.of_nat (N.to_nat (cnt2 / 64) - iw)) in *.
+        set (cnt3 := cnt2 - 64 * advw). set (pos3 := pos2 + 64 * advw).
+        pose proof (ph3b_spec b want (N.to_nat (cnt3 / 8)) pos3) as Bq.
+        destruct (ph3b b want (N.to_nat (cnt3 / 8)) pos3) as [ib pb]. destruct Bq as [B1 B2].
+        set (advb := N.of_nat (N.to_nat (cnt3 / 8) - ib)) in *.
+        rewrite ph4_scan. symmetry. apply (good_scan b want a tot).
+        destruct P2 as (Q1 & Q2 & Q3); cbn [fst snd] in *.
+        assert (64 * advw <= cnt2) by (unfold advw; lia).
+        assert (8 * advb <= cnt3) by (unfold advb; lia).
+        split3; cbn [fst snd]; try (unfold pos3, cnt3 in *; lia).
+        replace (pos3 + 8 * advb) with (pos2 + (64 * advw + 8 * advb)) by (unfold pos3; lia).
+        apply skip_ext; auto. intros x Hx.
+        destruct (N.lt_ge_cases x pos3); [apply W2; unfold pos3 in *; lia|apply B2; unfold pos3 in *; lia].
+Qed.
+
+(* ---- test clear ---- *)
+Lemma all_clr_iff b i k : all_clr b i k = true <-> (forall x, i <= x < i + N.of_nat k -> tb b x = false).
+Proof.
+  unfold all_clr. rewrite bits_from_forallb. split; intros H x Hx; specialize (H x Hx).
+  - apply negb_true_iff in H; auto.
+  - rewrite H; reflexivity.
+Qed.
+
+Lemma ba_test_clear_ok b start len :
+  ba_test_clear b start len = f_all_clear (tb b) start (N.to_nat len).
+Proof.
+  apply eq_iff_eq_true. rewrite f_all_clear_iff, N2Nat.id.
+  unfold ba_test_clear.
+  assert (GO : forall sb lb lbit, lbit < 8 ->
+     ((if negb (lbit =? 0) && negb (all_clr b (8 * (sb + lb)) (N.to_nat lbit)) then false
+       else if negb (lbit =? 0) && (lb =? 0) then true
+       else all_clr b (8 * sb) (N.to_nat (8 * lb))) = true
+      <-> forall x, 8 * sb <= x < 8 * sb + 8 * lb + lbit -> tb b x = false)).
+  { intros sb lb lbit Hl.
+    destruct (N.eqb_spec lbit 0) as [->|Hz]; cbn [negb andb].
+    - rewrite all_clr_iff, N2Nat.id. split; intros H x Hx; apply H; lia.
+    - destruct (all_clr b (8 * (sb + lb)) (N.to_nat lbit)) eqn:L; cbn [negb andb].
+      + pose proof (proj1 (all_clr_iff _ _ _) L) as L'; clear L; rename L' into L. rewrite N2Nat.id in L.
+        destruct (N.eqb_spec lb 0) as [->|Hb].
+        * split; auto. intros _ x Hx. apply L. lia.
+        * rewrite all_clr_iff, N2Nat.id. split; intros H x Hx.
+          -- destruct (N.lt_ge_cases x (8 * sb + 8 * lb)); [apply H; lia|apply L; lia].
+          -- apply H; lia.
+      + split; [discriminate|]. intros H.
+        assert (all_clr b (8 * (sb + lb)) (N.to_nat lbit) = true); [|congruence].
+        apply (proj2 (all_clr_iff _ _ _)). rewrite N2Nat.id. intros x Hx. apply H. lia. }
+  destruct (N.eqb_spec (start mod 8) 0) as [Hs|Hs]; cbn [negb andb].
+  - rewrite GO by (apply N.mod_lt; lia).
+    split; intros H x Hx; apply H; lia.
+  - set (sbit := start mod 8) in *. set (sb := start / 8).
+    assert (Es : start = 8 * sb + sbit) by (unfold sb, sbit; lia).
+    assert (Hsb : sbit < 8) by (unfold sbit; lia).
+    set (mc := if len <? 8 - sbit then len else 8 - sbit).
+    destruct (all_clr b (8 * sb + sbit) (N.to_nat mc)) eqn:F; cbn [negb andb].
+    + pose proof (proj1 (all_clr_iff _ _ _) F) as F'; clear F; rename F' into F. rewrite N2Nat.id in F.
+      destruct (N.leb_spec len (8 - sbit)) as [H1|H1].
+      * split; auto. intros _ x Hx. apply F. unfold mc. destruct (N.ltb_spec len (8 - sbit)); lia.
+      * assert (Emc : mc = 8 - sbit) by (unfold mc; destruct (N.ltb_spec len (8 - sbit)); lia).
+        rewrite GO by (apply N.mod_lt; lia).
+        split; intros H x Hx.
+        -- destruct (N.lt_ge_cases x (8 * (sb + 1))); [apply F; lia|apply H; lia].
+        -- apply H. lia.
+    + split; [discriminate|]. intros H.
+      assert (all_clr b (8 * sb + sbit) (N.to_nat mc) = true); [|congruence].
+      apply (proj2 (all_clr_iff _ _ _)). rewrite N2Nat.id. intros x Hx. apply H.
+      unfold mc in Hx. destruct (N.ltb_spec len (8 - sbit)); lia.
+Qed.
+
+(* ---- bulk get/set ---- *)
+Lemma get_bits_spec b : forall k i, get_bits b i k = f_bits (tb b) i k.
+Proof. induction k; intros i; simpl; [reflexivity|]. rewrite IHk. reflexivity. Qed.
+
+Lemma put_bits_spec : forall bits b i j,
+  tb (put_bits b i bits) j =
+  if f_rng i (N.of_nat (length bits)) j then nth (N.to_nat (j - i)) bits false else tb b j.
+Proof.
+  induction bits as [|x r IH]; intros b i j; cbn [put_bits length].
+  - rewrite f_rng_0. reflexivity.
+  - rewrite IH, Nat2N.inj_succ. set (L := N.of_nat (length r)). unfold f_rng.
+    assert (Hx : tb (if x then N.setbit b i else N.clearbit b i) j = if j =? i then x else tb b j).
+    { destruct x; [rewrite tb_set|rewrite tb_clr]; destruct (j =? i); reflexivity. }
+    rewrite Hx.
+    destruct (N.eqb_spec j i) as [->|Hj].
+    + replace (N.to_nat (i - i)) with O by lia. cbn [nth].
+      destruct (N.leb_spec (i + 1) i); [lia|]. cbn [andb].
+      destruct (N.leb_spec i i); [|lia]. destruct (N.ltb_spec i (i + N.succ L)); [|lia]. reflexivity.
+    + destruct (N.leb_spec (i + 1) j); destruct (N.ltb_spec j (i + 1 + L));
+        destruct (N.leb_spec i j); destruct (N.ltb_spec j (i + N.succ L)); cbn [andb]; try lia; try reflexivity.
+      replace (N.to_nat (j - i)) with (S (N.to_nat (j - (i + 1)))) by lia. reflexivity.
+Qed.
+
+Lemma aligned_pos gs a : aligned gs a -> 8 * (a / 8) = a - gs.
+Proof. intros (A & B & C). lia. Qed.
+
+Lemma BA_ok al : backend_ok (BA al) (fun _ => True) tb.
+Proof.
+  constructor.
+  - split; [exact I|]. intros j. cbn. unfold tb. destruct j; reflexivity.
+  - intros t i _. cbn. split3; auto. intros j. apply tb_set.
+  - intros t i _. cbn. split3; auto. intros j. apply tb_clr.
+  - intros t i _. cbn. split3; auto.
+  - intros t a n _. cbn. split; auto. intros j. rewrite set_loop_spec, N2Nat.id. reflexivity.
+  - intros t a n _. cbn. split; auto. intros j. rewrite clr_loop_spec, N2Nat.id. reflexivity.
+  - intros. apply ba_test_clear_ok.
+  - intros. apply ba_find_ok; auto.
+  - intros. apply ba_find_ok; auto.
+  - intros t gs a n _ Al. cbn. unfold ba_get. rewrite get_bits_spec, (aligned_pos _ _ Al). reflexivity.
+  - intros t gs a bits _ Al _. cbn. split; auto. intros j. unfold ba_set.
+    rewrite put_bits_spec, (aligned_pos _ _ Al). reflexivity.
+  - intros t _. cbn. split; [exact I|]. intros j. unfold tb. destruct j; reflexivity.
+  - intros t _. cbn. split3; auto.
+Qed.
